@@ -164,7 +164,7 @@ func init() {
 	addControl(control{Prop: "C02", Name: "resolvers-before-tree-on-cycle", Rule: "R02e", Kind: "mutant",
 		File: "variables.go", Old: "	v, err := r.resolveRef(cfg, opts)\n	if v != nil || criticalResolveError(err) {\n		return v, err\n	}\n\n	previousErr := err\n\n	s, _, err := r.resolveEnv(cfg, opts)", New: "	v, err := r.resolveRef(cfg, opts)\n	if v != nil {\n		return v, err\n	}\n\n	previousErr := err\n\n	s, _, err := r.resolveEnv(cfg, opts)", Expect: "R02e/(*ucfg.reference).resolve/tree before resolvers"})
 	addControl(control{Prop: "C02", Name: "expansion-memoises-its-path", Rule: "R02c", Kind: "mutant",
-		File: "variables.go", Old: "	ref := newReference(parsePathWithOpts(path, opts))\n	return ref.eval(cfg, opts)", New: "	ref := newReference(parsePathWithOpts(path, opts))\n	e.pathSep = opts.pathSep\n	return ref.eval(cfg, opts)", Expect: "R02c/(*ucfg.expansionSingle).eval"})
+		File: "variables.go", Old: "	ref := newReference(parsePath(path, e.pathSep, opts.maxIdx, opts.enableNumKeys, opts.escapePath))\n	return ref.eval(cfg, opts)", New: "	ref := newReference(parsePath(path, e.pathSep, opts.maxIdx, opts.enableNumKeys, opts.escapePath))\n	e.pathSep = opts.pathSep\n	return ref.eval(cfg, opts)", Expect: "R02c/(*ucfg.expansionSingle).eval"})
 	addControl(control{Prop: "C02", Name: "gate-written-positively", Rule: "R02b", Kind: "refactor", Quick: true,
 		File: "merge.go", Old: "	if !opts.varexp {\n		return newString(ctx, opts.meta, str), nil\n	}\n\n	varexp, err := parseSplice(str, opts.pathSep, opts.maxIdx, opts.enableNumKeys, opts.escapePath)\n	if err != nil {\n		return nil, raiseParseSplice(ctx, opts.meta, err)\n	}\n",
 		New: "	var varexp varEvaler\n	if opts.varexp {\n		var err error\n		varexp, err = parseSplice(str, opts.pathSep, opts.maxIdx, opts.enableNumKeys, opts.escapePath)\n		if err != nil {\n			return nil, raiseParseSplice(ctx, opts.meta, err)\n		}\n	} else {\n		return newString(ctx, opts.meta, str), nil\n	}\n"})
@@ -463,4 +463,31 @@ func init() {
 		File: "validator.go", Old: "	return time.Duration(tmp * float64(time.Second)), nil", New: "	secs := float64(time.Second) * tmp\n	return time.Duration(secs), nil"})
 	addControl(control{Prop: "C12", Name: "removal-copies-shifted-elements", Rule: "R12e", Kind: "mutant", Quick: true,
 		File: "ucfg.go", Old: "			v.SetContext(ctx)\n		}\n	}\n	return true", New: "			f.a[j] = v.cpy(ctx)\n		}\n	}\n	return true", Expect: "R12e/(*ucfg.fields).delAt"})
+	// ---------------- C07 R07g/h (reflect preconditions) ----------------
+	addControl(control{Prop: "C07", Name: "unpack-accepts-nil-pointer", Rule: "R07g", Kind: "mutant", Quick: true,
+		File: "reify.go", Old: "	if vTo.IsNil() {\n		// nothing to unpack into: a nil pointer, or a nil map passed by value\n		return raiseNil(ErrNilValue)\n	}\n", New: "", Expect: "R07g/ucfg.reify"})
+	addControl(control{Prop: "C07", Name: "merge-value-into-unaddressable-old", Rule: "R07g", Kind: "mutant", Quick: true,
+		File: "reify.go", Old: "		if !old.CanSet() {\n			// a value held by an interface or a map is not addressable: unpack\n			// into a copy, the caller stores the result in its place\n			tmp := reflect.New(old.Type()).Elem()\n			tmp.Set(old)\n			old, oldValue = tmp, tmp\n		}\n", New: "", Expect: "R07g/ucfg.reify"})
+	addControl(control{Prop: "C07", Name: "inline-list-set-without-test", Rule: "R07g", Kind: "mutant",
+		File: "reify.go", Old: "					if vField.CanSet() {\n						vField.Set(v)\n					} else {\n						// the list is held by an interface: store the result there\n						fInfo.value.Set(v)\n					}\n", New: "					vField.Set(v)\n", Expect: "R07g/ucfg.reifyStruct/Set receiver"})
+	addControl(control{Prop: "C07", Name: "config-by-value-address-taken", Rule: "R07g", Kind: "mutant",
+		File: "merge.go", Old: "		return pointerize(tConfigPtr, tConfig, vFrom).Interface().(*Config), nil", New: "		return vFrom.Addr().Interface().(*Config), nil", Expect: "R07g/ucfg.normalize/Addr receiver"})
+	addControl(control{Prop: "C07", Name: "regexp-by-value-address-taken", Rule: "R07g", Kind: "mutant",
+		File: "merge.go", Old: "		r := pointerize(reflect.PtrTo(tRegexp), tRegexp, v).Interface().(*regexp.Regexp)", New: "		r := v.Addr().Interface().(*regexp.Regexp)", Expect: "R07g/ucfg.normalizeValue/Addr receiver"})
+	addControl(control{Prop: "C07", Name: "unpacker-address-without-test", Rule: "R07g", Kind: "mutant",
+		File: "unpack.go", Old: "		if !v.CanAddr() {\n			break\n		}\n		v = v.Addr()", New: "		if v.Kind() == reflect.Ptr {\n			break\n		}\n		v = v.Addr()", Expect: "R07g/ucfg.valueIsUnpacker"})
+	addControl(control{Prop: "C07", Name: "array-element-of-value-copy", Rule: "R07g", Kind: "mutant",
+		File: "reify.go", Old: "	return reifyDoArray(opts, to, tTo.Elem(), 0, val, arr)", New: "	return reifyDoArray(opts, reflect.ValueOf(to.Interface()), tTo.Elem(), 0, val, arr)", Expect: "R07g/ucfg.reifyDoArray"})
+	addControl(control{Prop: "C07", Name: "addressable-copy-by-canaddr", Rule: "R07g", Kind: "refactor", Quick: true,
+		File: "reify.go", Old: "		if !old.CanSet() {\n			// a value held by an interface or a map is not addressable: unpack\n			// into a copy, the caller stores the result in its place\n			tmp := reflect.New(old.Type()).Elem()\n			tmp.Set(old)\n			old, oldValue = tmp, tmp\n		}\n", New: "		if !old.CanAddr() {\n			cp := reflect.New(old.Type())\n			cp.Elem().Set(old)\n			old = cp.Elem()\n			oldValue = old\n		}\n"})
+	addControl(control{Prop: "C07", Name: "nil-target-test-split", Rule: "R07g", Kind: "refactor",
+		File: "reify.go", Old: "	isValid := k == reflect.Ptr || k == reflect.Map\n	if !isValid {\n		return raisePointerRequired(vTo)\n	}\n", New: "	if k != reflect.Ptr && k != reflect.Map {\n		return raisePointerRequired(vTo)\n	}\n"})
+	addControl(control{Prop: "C07", Name: "string-returned-unconverted", Rule: "R07h", Kind: "mutant", Quick: true,
+		File: "reify.go", Old: "		return reflect.ValueOf(s).Convert(baseType), nil", New: "		return reflect.ValueOf(s), nil", Expect: "R07h/ucfg.doReifyPrimitive"})
+	addControl(control{Prop: "C07", Name: "map-key-unconverted", Rule: "R07h", Kind: "mutant",
+		File: "reify.go", Old: "		key := reflect.ValueOf(k).Convert(to.Type().Key())", New: "		key := reflect.ValueOf(k)", Expect: "R07h/ucfg.reifyMap"})
+	addControl(control{Prop: "C07", Name: "bool-returned-unconverted", Rule: "R07h", Kind: "mutant",
+		File: "reify.go", Old: "	return reflect.ValueOf(b).Convert(t), nil", New: "	_ = t\n	return reflect.ValueOf(b), nil", Expect: "R07h/ucfg.reifyBool"})
+	addControl(control{Prop: "C07", Name: "string-converted-in-local", Rule: "R07h", Kind: "refactor",
+		File: "reify.go", Old: "		return reflect.ValueOf(s).Convert(baseType), nil", New: "		sv := reflect.ValueOf(s)\n		sv = sv.Convert(baseType)\n		return sv, nil"})
 }
